@@ -67,9 +67,22 @@ func (c *Ctx) InstallReachingIn(root *ast.BlockStmt) (undo func()) {
 		}
 		return best
 	}
+	// objects declared inside root (by membership, not by position: root may be a merged body
+	// whose statements come from several functions)
+	declaredIn := map[types.Object]bool{}
+	identIn := map[*ast.Ident]bool{}
+	ast.Inspect(root, func(n ast.Node) bool {
+		if id, ok := n.(*ast.Ident); ok {
+			identIn[id] = true
+			if o := c.Info.Defs[id]; o != nil {
+				declaredIn[o] = true
+			}
+		}
+		return true
+	})
 	inLoopOrLit := func(o types.Object, at token.Pos) bool {
 		declPos := o.Pos()
-		if declPos < root.Pos() || declPos >= root.End() {
+		if !declaredIn[o] {
 			// declared outside root (a parameter or captured variable): any loop matters
 			return regionOf(at) != nil
 		}
@@ -189,7 +202,7 @@ func (c *Ctx) InstallReachingIn(root *ast.BlockStmt) (undo func()) {
 			return nil
 		}
 		use := id.Pos()
-		if use < root.Pos() || use > root.End() {
+		if !identIn[id] {
 			// an identifier inside an already substituted expression keeps its own position, so
 			// this only happens for synthetic nodes
 			return nil
@@ -200,7 +213,7 @@ func (c *Ctx) InstallReachingIn(root *ast.BlockStmt) (undo func()) {
 			if d.at > use {
 				continue
 			}
-			encloses := d.scope.Pos() <= use && use <= d.scope.End()
+			encloses := d.scope == ast.Node(root) || (d.scope.Pos() <= use && use <= d.scope.End())
 			if !encloses {
 				// a conditional assignment before the use: value unknown
 				if best == nil || d.at > best.at {
@@ -219,7 +232,7 @@ func (c *Ctx) InstallReachingIn(root *ast.BlockStmt) (undo func()) {
 		// came later in slice order; re-check
 		for i := range defs[o] {
 			d := &defs[o][i]
-			if d.at <= use && d.at > best.at && !(d.scope.Pos() <= use && use <= d.scope.End()) {
+			if d.at <= use && d.at > best.at && d.scope != ast.Node(root) && !(d.scope.Pos() <= use && use <= d.scope.End()) {
 				return nil
 			}
 		}
